@@ -569,6 +569,8 @@ def check(rep, F, tier, replay=None):
             rep.violation("PD-writer", "shape", "PlutusData's writer no longer emits original_bytes verbatim in the Some arm", {"function": fid})
     from ruleutil import close_len_rule
     close_len_rule(rep, F)
+    from ruleutil import dup_key_rule
+    dup_key_rule(rep, F)
     return rep.finish(
         EXPLANATION,
         ["byte identity of a raw-copied part follows from write_raw_bytes(arg) writing arg unchanged (cbor_event)", "re-encoded (touched) parts are C01's concern"],
